@@ -31,6 +31,12 @@ def _findings(prop_rules, repo):
 
 def _apply(variant, dst):
     import ast
+    if 'patch' in variant:
+        import subprocess
+        p = subprocess.run(['git', 'apply', '--unsafe-paths', '--directory=' + dst, variant['patch']], cwd=dst, capture_output=True, text=True)
+        if p.returncode != 0:
+            p = subprocess.run(['patch', '-p1', '-s', '-i', variant['patch']], cwd=dst, capture_output=True, text=True)
+        return p.returncode == 0
     if 'pkg_fn' in variant:
         pkg = os.path.join(dst, 'bitstring')
         changed = False
@@ -60,10 +66,34 @@ def _apply(variant, dst):
     return True
 
 
+def seeded_variants(prop, rules):
+    """The kept independent seeded faults that this property's check reported when they were recorded: they must stay reported."""
+    import json
+    out = []
+    root = os.path.join(os.path.dirname(os.path.dirname(os.path.abspath(__file__))), 'seeded')
+    if not os.path.isdir(root):
+        return out
+    for fid in sorted(os.listdir(root)):
+        mp = os.path.join(root, fid, 'meta.json')
+        if not os.path.exists(mp):
+            continue
+        meta = json.load(open(mp))
+        rep = meta.get('checks_reporting_it', {}).get(prop)
+        if not rep:
+            continue
+        rids = {x.split(']')[0].lstrip('[') for x in rep}
+        out.append(dict(id='seeded:' + fid, props=[prop], file='*', kind='fire', where='', expect=sorted(rids & set(rules)) or sorted(rules),
+                        patch=os.path.join(root, fid, 'patch.diff')))
+    return out
+
+
+_EXTRA = {}
+
+
 def _run_variant(args):
     vid, rules, base_keys, repo = args
     from .variants import VARIANTS
-    variant = next(v for v in VARIANTS if v['id'] == vid)
+    variant = _EXTRA.get(vid) or next(v for v in VARIANTS if v['id'] == vid)
     tmp = tempfile.mkdtemp(prefix='vst_')
     try:
         shutil.copytree(os.path.join(repo, 'bitstring'), os.path.join(tmp, 'bitstring'),
@@ -113,7 +143,12 @@ def run_for_property(prop, jobs=16):
     from .props import PROPS
     from .variants import VARIANTS
     rules = PROPS[prop]['rules']
-    mine = [v for v in VARIANTS if prop in v['props']]
+    # a must-fire variant is relevant to a property only if one of the rules expected to report it belongs to the property
+    mine = [v for v in VARIANTS if prop in v['props'] and (v['kind'] == 'silent' or set(v['expect']) & set(rules))]
+    extra = seeded_variants(prop, rules)
+    for v in extra:
+        _EXTRA[v['id']] = v
+    mine = mine + extra
     res = run(mine, rules, jobs=jobs)
     failed = [f'{vid}: {msg}' for vid, st, msg in res if st == 'failed']
     skipped = [vid for vid, st, _ in res if st == 'skipped']
